@@ -60,6 +60,12 @@ def judge(ctx, t, r, mode):
 def run(ctx):
     import hashlib, json
     rng = ctx.rng
+    # tie to the public API surface of the working tree: a public callable the catalogue does not know
+    gaps, dangling = catalogue.api_surface_gaps()
+    ctx.hist["api_surface_gaps"] = len(gaps)
+    if gaps or dangling:
+        ctx.fail({"op": "api-surface", "uncovered": gaps, "dangling": dangling}, "model",
+                 f"public API surface changed: {gaps} are neither exercised by the catalogue nor waived (dangling: {dangling})")
     nworlds = (24 if ctx.tier == "quick" else 160) * ctx.escalate
     # every catalogue operation on every world (so each op is exercised ~20 times per quick run)
     tasks = matrix.gen_tasks(rng, nworlds, ctx.tier, per_world=None)
